@@ -21,6 +21,7 @@ package main
 //@   loop 1
 //@   invariant decoded-so-far: len(patches) == len(o.PatchFilePaths) && (forall j int {patches[j]} :: 0 <= j && j <= rangeindex ==> rPatchOK(patches[j]))
 //@   invariant nothing-written: Stdout == old(Stdout)
+//@   invariant[C20] every-patch-file-so-far-was-read-exactly-once: FilesRead == old(FilesRead) + rangeindex + 1
 //@   loop 2
 //@   invariant nothing-written: Stdout == old(Stdout)
 //@   invariant patches-kept: patches == atentry(patches) && (forall j int {patches[j]} :: 0 <= j && j < len(patches) ==> rPatchOK(patches[j]))
